@@ -17,9 +17,10 @@ prop("C11",
      assumptions=[
          "u64^3 is not enumerable: the claim is the stated boundary lattice (90 readings x 27 frequencies) plus the dense cube a,b,f < 96 (160 in thorough)",
          "precision: clocks whose read spacing aliases with the step (no non-zero sample ever seen, the real loop would spin for ever) and steps below 1 ps are excluded and counted",
+         "the reported (cached, per process and timer kind) precision is explored over process histories: a fresh child process per (clock step, frequency, order of up to three os / tsc queries); the OS clock is the host's, its answer is only bounded (non-zero, below 100 ms, stable within the process) while the virtual TSC steps are >= 1 s",
      ],
-     technique="bounded-exhaustive enumeration of (a,b,f) lattice + dense cube on the real conversion against a 256-bit integer reference; real measure_precision under scripted uniform-step virtual clocks",
-     text="Every (a,b,f) of a boundary lattice and of a dense low cube is pushed through the real TscTimestamp::duration_since and compared with floor((b-a)*10^12/f) computed in 256-bit arithmetic; monotonicity, additivity defect in {0,1} and translation invariance are checked on all ordered lattice triples; Duration->ps on boundary Durations; Timer::measure_precision is run under virtual clocks stepping uniformly.",
+     technique="bounded-exhaustive enumeration of (a,b,f) lattice + dense cube on the real conversion (inner function and the tagged Timestamp route) against a 256-bit integer reference; OS instants over all offset pairs; real measure_precision under scripted uniform-step virtual clocks; reported precision over all query orders in fresh processes",
+     text="Every (a,b,f) of a boundary lattice and of a dense low cube is pushed through the real TscTimestamp::duration_since and through Timestamp::duration_since (the tagged route every consumer takes) and compared with floor((b-a)*10^12/f) computed in 256-bit arithmetic; monotonicity, additivity defect in {0,1} and translation invariance are checked on all ordered lattice triples; Duration->ps on boundary Durations; Timer::measure_precision is run under virtual clocks stepping uniformly.",
      note="Trusted: the 256-bit reference arithmetic in harness/mc-seq/src/bigint.rs, the virtual clock seam (hook H5).",
      engine="S")
 
@@ -300,9 +301,11 @@ prop("C09",
      assumptions=[
          "request sequences up to depth 3; layouts: sizes {0,1,8,4096,2^40,isize::MAX-4095} x alignments {1,8,4096} at depth 1, a reduced set at depth 2-3",
          "'never allocates' is decided for the enumerated thread phases on Linux / thread_local!; the macOS pthread_key path is not compiled here",
+         "allocations are watched at two levels: Rust's global allocator (a tripwire) and the C heap below it (the process replaces malloc / calloc / realloc / memalign / aligned_alloc / posix_memalign and forwards to __libc_*; glibc resolves its internal calls to the replacement)",
+         "engine S is built with arithmetic overflow checks (-C overflow-checks=on), as debug builds are: all pairs and triples of the largest valid requests (about isize::MAX bytes) are part of the alphabet",
      ],
-     technique="bounded-exhaustive enumeration of allocator request sequences x scripted return values x thread phases against a logging mock allocator, with a tripwire global allocator (public API only)",
-     text="Every request of the alphabet (depth 1), every pair over a reduced alphabet and every triple over one layout is issued through the real AllocProfiler<Mock> on a fresh thread, a warmed-up thread and inside a TLS destructor during thread exit (registered before / after first use); the mock's call log must equal the request sequence argument for argument, every returned pointer the scripted one (null included), and the tripwire global allocator must see no allocation by that thread meanwhile.",
+     technique="bounded-exhaustive enumeration of allocator request sequences x scripted return values x thread phases against a logging mock allocator, with a tripwire global allocator and a replaced C heap (public API only)",
+     text="Every request of the alphabet (depth 1), every pair over a reduced alphabet and every triple over one layout is issued through the real AllocProfiler<Mock> on a fresh thread, a warmed-up thread and inside a TLS destructor during thread exit (registered before / after first use); the mock's call log must equal the request sequence argument for argument, every returned pointer the scripted one (null included), and neither the tripwire global allocator nor the replaced C heap may see an allocation by that thread meanwhile; no request may panic (overflow-checked build).",
      note="Trusted: the mock and tripwire in harness/mc-seq/src/bin/c09.rs (allocation-free by construction: fixed static arrays).", engine="S")
 
 prop("C10",
